@@ -165,6 +165,9 @@ def _havoc(it, fr, spec, body_stmts, target):
                 obj.f[field] = fresh_like(cx, obj.f[field], field)
                 havocked.add(("field", id(obj), field))
                 cx.ghost.setdefault("havocked_fields", {})[(id(obj), field)] = obj.f[field]
+            elif isinstance(loc, SSeq):
+                loc._havoc(cx)
+                havocked.add(("sseq", id(loc), None))
             elif hasattr(loc, "_havoc"):
                 loc._havoc(cx)
                 havocked.add(("obj", id(loc), None))
